@@ -5,16 +5,16 @@ Local Open Scope nat_scope.
 
 Definition nv_ops (top : nat) : list op :=
   [OInt 9223372036854775809; OFlipAll; OSet top true; OSwap; OSetAll; ORefCopy 0 top; OAnd; OTest top;
-   OSet (S top) true; OStr [49; 48; 48; 49]%N 1 18446744073709551615 48 49; ONot].
+   OSet (S top) true; OStr [49; 48; 48; 49]%N 1 18446744073709551615 48 49;
+   OStr [49; 50]%N 0 18446744073709551615 48 49; OStr [49]%N 2 0 48 49; ONot].
 
 Lemma nonvacuous :
-  forallb op_dom (nv_ops 6) = true
-  /\ run_m 7 8 (init_m 7 8) (nv_ops 6) = s_run 7 (s_init 7) (nv_ops 6)
+  run_m 7 8 (init_m 7 8) (nv_ops 6) = s_run 7 (s_init 7) (nv_ops 6)
   /\ run_m 64 64 (init_m 64 64) (nv_ops 63) = s_run 64 (s_init 64) (nv_ops 63)
   /\ run_m 65 64 (init_m 65 64) (nv_ops 64) = s_run 65 (s_init 65) (nv_ops 64)
   /\ map (option_map (fun r => (o_count (fst r), o_all (fst r), snd r))) (run_m 65 64 (init_m 65 64) (nv_ops 64))
      = [Some (2, false, []); Some (63, false, []); Some (63, false, []); Some (0, false, []);
         Some (65, true, []); Some (65, true, []); Some (63, false, []); Some (63, false, [true; true; true; false]);
-        None; Some (1, false, []); Some (64, false, [])]
+        None; Some (1, false, []); None; None; Some (64, false, [])]
   /\ fst (final_state 65 6 (init_m 65 64) (nv_ops 64)) = [18446744073709551614; 1]%N.
 Proof. vm_compute. repeat split; reflexivity. Qed.
